@@ -1,6 +1,7 @@
 package main
 
 import (
+	"math/big"
 	"fmt"
 	"go/ast"
 	"go/token"
@@ -46,10 +47,14 @@ func init() {
 		mutation{"finger-scan-ascending", "chord/local_chord.go", "for k := chord.MaxFingerEntries; k >= 1; k-- {", "for k := 1; k <= chord.MaxFingerEntries; k++ {", "finger-scan"},
 		mutation{"finger-last-hit-wins", "chord/local_chord.go", "			finger = f\n			return false", "			finger = f\n			return true", "finger-first-hit"},
 	)
+	mutExtra["fingerprint-rotate-xor-fold"] = [2]string{"	\"fmt\"\n", "	\"fmt\"\n	\"math/bits\"\n"}
 	addSelfTests("C02",
 		mutation{"notify-closed-interval", "chord/local_chord.go", "chord.Between(predecessorSnapshot.ID(), predecessor.ID(), n.ID(), false)", "chord.Between(predecessorSnapshot.ID(), predecessor.ID(), n.ID(), true)", "interval"},
 		mutation{"stabilize-interval-swapped", "chord/local_tasks.go", "chord.Between(n.ID(), newSucc.ID(), head.ID(), false)", "chord.Between(head.ID(), newSucc.ID(), n.ID(), false)", "interval"},
 		mutation{"pred-write-under-rlock", "chord/local_tasks.go", "		n.predecessorMu.Lock()\n		if n.predecessor == pre {", "		n.predecessorMu.RLock()\n		if n.predecessor == pre {", "guarded-write"},
+		mutation{"fingerprint-rotate-xor-fold", "chord/local_tasks.go", "	hasher := xxh3.New()\n	buf := make([]byte, 8)\n	for _, node := range nodes {\n		if node == nil {\n			continue\n		}\n		binary.BigEndian.PutUint64(buf, node.ID())\n		hasher.Write(buf)\n	}\n	return hasher.Sum64()", "	var sum uint64\n	for _, node := range nodes {\n		if node == nil {\n			continue\n		}\n		sum = bits.RotateLeft64(sum, 17) ^ node.ID()\n	}\n	_, _ = xxh3.Hash, binary.BigEndian\n	return sum", "list-fingerprint"},
+		mutation{"fingerprint-fnv-fold", "chord/local_tasks.go", "	hasher := xxh3.New()\n	buf := make([]byte, 8)\n	for _, node := range nodes {\n		if node == nil {\n			continue\n		}\n		binary.BigEndian.PutUint64(buf, node.ID())\n		hasher.Write(buf)\n	}\n	return hasher.Sum64()", "	sum := uint64(14695981039346656037)\n	for _, node := range nodes {\n		if node == nil {\n			continue\n		}\n		sum = (sum ^ node.ID()) * 1099511628211\n		sum ^= sum >> 29\n	}\n	_, _ = xxh3.Hash, binary.BigEndian\n	return sum", "!list-fingerprint"},
+		mutation{"fingerprint-skips-first-entry", "chord/local_tasks.go", "	for _, node := range nodes {\n		if node == nil {\n			continue\n		}\n		binary.BigEndian.PutUint64(buf, node.ID())", "	for i, node := range nodes {\n		if node == nil || i == 0 {\n			continue\n		}\n		binary.BigEndian.PutUint64(buf, node.ID())", "list-fingerprint"},
 		mutation{"fix-finger-stops-at-self", "chord/local_tasks.go", "		if changed {\n			fixed = append(fixed, k)\n		}\n	}", "		if changed {\n			fixed = append(fixed, k)\n		} else if k > 1 {\n			break\n		}\n	}", "finger-coverage"},
 		mutation{"fix-finger-skips-on-error-before-fix", "chord/local_tasks.go", "		changed, err := n.fixK(k)\n		if err != nil {\n			continue\n		}", "		if n.checkNodeState(false) != nil {\n			continue\n		}\n		changed, err := n.fixK(k)\n		if err != nil {\n			continue\n		}", "finger-coverage"},
 		mutation{"check-predecessor-without-cas", "chord/local_tasks.go", "		if n.predecessor == pre {\n			n.predecessor = nil\n			n.logger.Info(\"Discovered dead predecessor\",\n				zap.Object(\"old\", pre.Identity()),\n				zap.String(\"new\", \"nil\"),\n			)\n		}", "		n.predecessor = nil\n		n.logger.Info(\"Discovered dead predecessor\",\n			zap.Object(\"old\", pre.Identity()),\n			zap.String(\"new\", \"nil\"),\n		)", "snapshot-cas"},
@@ -484,6 +489,7 @@ func runC02(c *Ctx) {
 	c.Floor("Notify predecessor writes", ncas, 1)
 	snapshotCASRule(c)
 	fingerCoverageRule(c)
+	listFingerprintRule(c)
 }
 
 func isLenCmp(f *Fn, e ast.Expr, op token.Token, val string) bool {
@@ -1207,4 +1213,158 @@ func fingerCoverageRule(c *Ctx) {
 		return true
 	})
 	c.Ob("finger-coverage", "fixFinger#no-early-exit-from-the-round", loop.Pos(), len(early) == 0 && !loopVarWritten, "no break / return / goto leaves the round before the last entry and the body does not move k: every entry is refreshed every round; found: "+strings.Join(early, ", "))
+}
+
+// listFingerprintRule: stabilize decides "did the successor list change?" by comparing a
+// fingerprint of the new list with the stored one; two different lists with the same
+// fingerprint mean the update is skipped and the node keeps a stale successor for good.
+//   - a fingerprint computed by a library hash (hash.Hash64-style: New, Write, Sum64) is
+//     accepted when every non-nil entry's ID is written, in order, as a fixed-width
+//     encoding, and the sum of that hasher is what is returned (the hash itself is trusted);
+//   - a hand-written fold is executed on every list of up to three entries over a few ids
+//     (including 0 and a nil entry): two different ID sequences with the same fingerprint
+//     are reported with the witness lists. A collision found this way is a real one.
+func listFingerprintRule(c *Ctx) {
+	hf := chordFn(c, "LocalNode", "hash")
+	var hasher *ast.CallExpr
+	for _, call := range hf.Calls(false, func(call *ast.CallExpr) bool {
+		k := hf.CallKey(call)
+		return strings.HasSuffix(k, "xxh3.New") || strings.HasPrefix(k, "hash/") && strings.Contains(k, ".New") || strings.HasPrefix(k, "crypto/") && strings.HasSuffix(k, ".New")
+	}) {
+		hasher = call
+	}
+	if hasher != nil {
+		// structural form
+		var loop *ast.RangeStmt
+		ast.Inspect(hf.Body, func(n ast.Node) bool {
+			if r, ok := n.(*ast.RangeStmt); ok && loop == nil && hf.Prov(r.X) == "param#0" {
+				loop = r
+			}
+			return true
+		})
+		okFeed, okSkip, okSum := false, true, false
+		if loop != nil {
+			elem := hf.varOf(loop.Value)
+			var put, write *ast.CallExpr
+			ast.Inspect(loop.Body, func(n ast.Node) bool {
+				switch x := n.(type) {
+				case *ast.CallExpr:
+					k := hf.CallKey(x)
+					if strings.HasSuffix(k, "ndian.PutUint64") || strings.HasSuffix(k, "ndian.AppendUint64") {
+						put = x
+					}
+					if se, ok := x.Fun.(*ast.SelectorExpr); ok && se.Sel.Name == "Write" && strings.Contains(hf.Prov(se.X), ".New()") {
+						write = x
+					}
+				case *ast.BranchStmt:
+					// the only entries skipped are nil ones
+					if !hf.FactsAt(x).Cmp(func(e, tag ast.Expr, truth bool, fa *Fact) bool {
+						be, ok := e.(*ast.BinaryExpr)
+						return ok && tag == nil && truth && be.Op == token.EQL && hf.varOf(be.X) == elem && isNilIdent(hf.Info, be.Y)
+					}) {
+						okSkip = false
+					}
+				case *ast.ReturnStmt:
+					okSkip = false
+				}
+				return true
+			})
+			if put != nil && write != nil && len(put.Args) == 2 && len(write.Args) == 1 && elem != nil {
+				idv := ast.Unparen(put.Args[1])
+				if call, ok := idv.(*ast.CallExpr); ok {
+					if se, ok := call.Fun.(*ast.SelectorExpr); ok && se.Sel.Name == "ID" && hf.varOf(se.X) == elem {
+						okFeed = hf.ObjOf(put.Args[0]) != nil && hf.ObjOf(put.Args[0]) == hf.ObjOf(write.Args[0])
+					}
+				}
+			}
+		}
+		for _, r := range hf.Returns() {
+			if len(r.Results) == 1 {
+				if call, ok := ast.Unparen(r.Results[0]).(*ast.CallExpr); ok {
+					if se, ok := call.Fun.(*ast.SelectorExpr); ok && strings.HasPrefix(se.Sel.Name, "Sum") && strings.Contains(hf.Prov(se.X), ".New()") {
+						okSum = true
+					}
+				}
+			}
+		}
+		c.Ob("list-fingerprint", "LocalNode.hash#every-id-fed-in-order-to-a-library-hash", hf.Decl.Pos(), loop != nil && okFeed && okSkip && okSum, "the successor-list fingerprint feeds the 8-byte encoding of every non-nil entry's ID, in list order, to one library hasher and returns its sum (skipping only nil entries)")
+		c.Trust("the library hash used for the successor-list fingerprint does not collide on distinct inputs in practice")
+		return
+	}
+	// hand-written fold: execute it
+	ids := []*big.Int{big.NewInt(0), big.NewInt(1), big.NewInt(2), new(big.Int).Lsh(big.NewInt(1), 47)}
+	type cand struct {
+		list sliceVal
+		key  string // the ID sequence of the non-nil entries
+		show string
+	}
+	var cands []cand
+	var gen func(prefix []int, n int)
+	gen = func(prefix []int, n int) {
+		if len(prefix) == n {
+			var sl sliceVal
+			var key, show []string
+			for _, i := range prefix {
+				if i < 0 {
+					sl = append(sl, nilVal{})
+					show = append(show, "nil")
+					continue
+				}
+				sl = append(sl, objVal{ids[i]})
+				key = append(key, ids[i].String())
+				show = append(show, ids[i].String())
+			}
+			cands = append(cands, cand{sl, strings.Join(key, ","), "[" + strings.Join(show, " ") + "]"})
+			return
+		}
+		for i := -1; i < len(ids); i++ {
+			gen(append(append([]int{}, prefix...), i), n)
+		}
+	}
+	for n := 0; n <= 3; n++ {
+		gen(nil, n)
+	}
+	ext := func(f *Fn, call *ast.CallExpr, recv Val, args []Val) (Val, bool) {
+		if se, ok := ast.Unparen(call.Fun).(*ast.SelectorExpr); ok && se.Sel.Name == "ID" {
+			if o, ok := recv.(objVal); ok {
+				return o.id, true
+			}
+		}
+		if f.IsCall(call, "math/bits.RotateLeft64") && len(args) == 2 {
+			x, ok1 := args[0].(*big.Int)
+			k, ok2 := args[1].(*big.Int)
+			if ok1 && ok2 {
+				r := uint(((k.Int64() % 64) + 64) % 64)
+				mask := new(big.Int).Sub(new(big.Int).Lsh(big.NewInt(1), 64), big.NewInt(1))
+				hi := new(big.Int).And(new(big.Int).Lsh(x, r), mask)
+				lo := new(big.Int).Rsh(x, 64-r)
+				return new(big.Int).Or(hi, lo), true
+			}
+		}
+		return nil, false
+	}
+	seen := map[string]cand{} // fingerprint -> first list
+	collisions := 0
+	witness := ""
+	for _, cd := range cands {
+		res, err := hf.EvalFn([]Val{cd.list}, ext)
+		if err != nil || len(res) != 1 {
+			c.Failf("LocalNode.hash: hand-written fingerprint not evaluable (undecided): %v", err)
+		}
+		fp, ok := res[0].(*big.Int)
+		if !ok {
+			c.Failf("LocalNode.hash: non-integer fingerprint (undecided)")
+		}
+		if prev, dup := seen[fp.String()]; dup && prev.key != cd.key {
+			collisions++
+			if witness == "" {
+				witness = fmt.Sprintf("hash(%s) == hash(%s) == %s", prev.show, cd.show, fp)
+			}
+			continue
+		}
+		if _, dup := seen[fp.String()]; !dup {
+			seen[fp.String()] = cd
+		}
+	}
+	c.Ob("list-fingerprint", "LocalNode.hash#no-collision-on-small-lists", hf.Decl.Pos(), collisions == 0, fmt.Sprintf("the hand-written successor-list fingerprint was executed on all %d lists of up to 3 entries over ids {0,1,2,2^47,nil}: %d pairs of different ID sequences share a fingerprint (stabilize would skip the update and keep the stale list); first witness: %s", len(cands), collisions, witness))
 }
